@@ -674,7 +674,6 @@ class Interp:
                     if not hasattr(self, "ub_events"):
                         self.ub_events = []
                     self.ub_events.append((n, "signed left shift `%s` by %d moves bits that can be set (%s) beyond bit 63" % (self.facts.ntext(n)[:50], b, ",".join(describe(x_) for x_ in lost[:2]))))
-                    return Undefined("%s: signed left shift `%s` by %d moves bits that can be set (%s) beyond bit 63 - signed overflow" % (self.facts.loc(n), self.facts.ntext(n)[:50], b, ",".join(str(x_) for x_ in lost[:3])))
             return v_shl(a, b) if op == "<<" else v_shr(a, b, signed)
         if conc:
             if op == "/" or op == "%":
